@@ -12,7 +12,8 @@
 From Coq Require Import ZArith List Bool String.
 Import ListNotations.
 From TD Require Import Spec.PySlice Spec.C02_TorchShape Model.C02_ShapeOps
-                       Proofs.C02_FrameP Proofs.C02_OpsP Proofs.C02_RefuteP.
+                       Proofs.C02_FrameP Proofs.C02_OpsP Proofs.C02_RefuteP Proofs.C02_MultiP Proofs.C02_StackP
+                       Proofs.C02_NamesP.
 Open Scope string_scope.
 Open Scope Z_scope.
 
@@ -47,6 +48,95 @@ Theorem C02_batch_size_and_keys : forall t o bs',
   exists t', apply t o = Done t' /\ top_shape t' = bs' /\ same_keys t t'.
 Proof. exact shape_ops_batch_size. Qed.
 Print Assumptions C02_batch_size_and_keys.
+
+(* ---------------------------------------------------------------------------------------------------------------
+   Operations with several results: one result per shape torch returns, each the input with its batch prefix replaced *)
+Theorem C02_unbind : forall t d shapes,
+  wf t -> is_node t -> t_unbind (top_shape t) d = Ok shapes ->
+  exists ts, td_unbind t d = Done ts /\
+             Forall2 (fun s t' => top_shape t' = s /\ rel (top_shape t) s t t' /\ wf t') shapes ts.
+Proof. exact unbind_acts_on_batch_dims. Qed.
+Print Assumptions C02_unbind.
+
+(* split(list): the full statement (legal <-> accepted) is refuted by D4 below; on legal non-empty lists: *)
+Theorem C02_split_list_partial : forall t l d shapes,
+  wf t -> is_node t -> l <> [] -> t_split_list (top_shape t) l d = Ok shapes ->
+  exists ts, td_split t (inr l) d = Done ts /\
+             Forall2 (fun s t' => top_shape t' = s /\ rel (top_shape t) s t t' /\ wf t') shapes ts.
+Proof. exact split_list_acts_on_batch_dims. Qed.
+Print Assumptions C02_split_list_partial.
+
+Theorem C02_split_int : forall t k d shapes,
+  wf t -> is_node t -> t_split_int (top_shape t) k d = Ok shapes ->
+  exists ts, td_split t (inl k) d = Done ts /\
+             Forall2 (fun s t' => top_shape t' = s /\ rel (top_shape t) s t t' /\ wf t') shapes ts.
+Proof. exact split_int_acts_on_batch_dims. Qed.
+Print Assumptions C02_split_int.
+
+(* chunk: on a dim of positive size (size 0 is C02-e: one chunk instead of torch's `chunks`) *)
+Theorem C02_chunk_partial : forall t c d shapes i,
+  wf t -> is_node t -> wrap_dim d (List.length (top_shape t)) = Ok i -> 0 < nthZ (top_shape t) i ->
+  t_chunk (top_shape t) c d = Ok shapes ->
+  exists ts, td_chunk t c d = Done ts /\
+             Forall2 (fun s t' => top_shape t' = s /\ rel (top_shape t) s t t' /\ wf t') shapes ts.
+Proof. exact chunk_acts_on_batch_dims. Qed.
+Print Assumptions C02_chunk_partial.
+
+Theorem C02_chunk_refuted :
+  t_chunk [0; 2] 3 0 = Ok [[0; 2]; [0; 2]; [0; 2]] /\ td_chunk (td1 [0; 2] []) 3 0 = Done [td1 [0; 2] []].
+Proof. exact C02e_chunk_empty_dim. Qed.
+Print Assumptions C02_chunk_refuted.
+
+(* torch.stack over 1 + |others| operands with the same keys and shapes (any number of operands, any depth) *)
+Theorem C02_stack : forall t others d bs',
+  wf t -> ukeys t -> is_node t -> Forall (cong eq t) others ->
+  t_stack (map top_shape (t :: others)) d = Ok bs' ->
+  exists t', td_stack (t :: others) d = Done t' /\ top_shape t' = bs' /\ rel (top_shape t) bs' t t' /\ wf t'.
+Proof. exact stack_acts_on_batch_dims. Qed.
+Print Assumptions C02_stack.
+
+(* ---------------------------------------------------------------------------------------------------------------
+   Dimension names travel with their dimensions: the result's names are the input's names read through the same
+   provenance list as the sizes ([travels]); new dims are unnamed *)
+Theorem C02_names_permute : forall bs nm ents dims p t',
+  mapM (fun d => wrap_dim d (List.length bs)) dims = Ok p -> is_perm p -> List.length p = List.length bs ->
+  names_wf nm bs -> has_names nm = true ->
+  apply (Node bs nm ents) (OPermute dims) = Done t' ->
+  exists nl', root_names t' = Some nl' /\
+              travels (map Some p) bs (top_shape t') (names_list nm (List.length bs)) nl'.
+Proof. exact names_permute. Qed.
+Print Assumptions C02_names_permute.
+
+Theorem C02_names_unsqueeze : forall bs nm ents d i t',
+  wrap_dim d (S (List.length bs)) = Ok i -> names_wf nm bs -> has_names nm = true ->
+  apply (Node bs nm ents) (OUnsqueeze d) = Done t' ->
+  exists nl', root_names t' = Some nl' /\
+              travels (insert_nth i None (id_prov (List.length bs))) bs (top_shape t') (names_list nm (List.length bs)) nl'.
+Proof. exact names_unsqueeze. Qed.
+Print Assumptions C02_names_unsqueeze.
+
+Theorem C02_names_squeeze : forall bs nm ents d i t',
+  bs <> [] -> wrap_dim d (List.length bs) = Ok i -> nthZ bs i = 1 -> names_wf nm bs -> has_names nm = true ->
+  apply (Node bs nm ents) (OSqueeze (Some d)) = Done t' ->
+  exists nl', root_names t' = Some nl' /\
+              travels (remove_nth i (id_prov (List.length bs))) bs (top_shape t') (names_list nm (List.length bs)) nl'.
+Proof. exact names_squeeze. Qed.
+Print Assumptions C02_names_squeeze.
+
+Theorem C02_names_expand : forall bs nm ents shape t',
+  nonneg shape -> t_expand bs shape = Ok shape -> names_wf nm bs -> has_names nm = true ->
+  apply (Node bs nm ents) (OExpand shape) = Done t' ->
+  root_names t' = Some (repeat None (List.length shape - List.length bs) ++ names_list nm (List.length bs))%list /\ top_shape t' = shape.
+Proof. exact names_expand. Qed.
+Print Assumptions C02_names_expand.
+
+(* squeeze() (dim=None): names of nested nodes are erased (C02-a): the statement "names travel" is refuted there *)
+Theorem C02_names_squeeze_all_refuted :
+  apply (Node [1; 2] (Some [Some "x"; Some "y"]) [("n", Node [1; 2] (Some [Some "x"; Some "y"]) [("x", Leaf [1; 2])])])
+        (OSqueeze None)
+  = Done (Node [2] (Some [Some "y"]) [("n", Node [2] None [("x", Leaf [2])])]).
+Proof. exact C02a_squeeze_all_nested_names. Qed.
+Print Assumptions C02_names_squeeze_all_refuted.
 
 (* ---------------------------------------------------------------------------------------------------------------
    The recorded defects are facts about the model (witness = the repro of findings.d/C02.json) *)
@@ -113,3 +203,18 @@ Proof. split; [exact I|]. split; vm_compute; reflexivity. Qed.
 Example C02_ex_flatten :
   in_domain (OFlatten 0 (-1)) (top_shape ex_tree) /\ torch_shape (OFlatten 0 (-1)) (top_shape ex_tree) = Ok [6].
 Proof. split; [split; [discriminate|vm_compute; reflexivity]|vm_compute; reflexivity]. Qed.
+
+Example C02_ex_unbind : t_unbind (top_shape ex_tree) (-1) = Ok [[2; 1]; [2; 1]; [2; 1]].
+Proof. vm_compute. reflexivity. Qed.
+
+Example C02_ex_split : t_split_list (top_shape ex_tree) [1; 0; 2] 2 = Ok [[2; 1; 1]; [2; 1; 0]; [2; 1; 2]]
+  /\ exists ts, td_split ex_tree (inr [1; 0; 2]) 2 = Done ts /\ map top_shape ts = [[2; 1; 1]; [2; 1; 0]; [2; 1; 2]].
+Proof. split; [vm_compute; reflexivity|]. eexists. split; vm_compute; reflexivity. Qed.
+
+Example C02_ex_stack :
+  ukeys ex_tree /\ cong eq ex_tree ex_tree /\ t_stack (map top_shape [ex_tree; ex_tree; ex_tree]) (-2) = Ok [2; 1; 3; 3]
+  /\ exists t', td_stack [ex_tree; ex_tree; ex_tree] (-2) = Done t' /\ top_shape t' = [2; 1; 3; 3].
+Proof.
+  split; [exact ex_tree_ukeys|]. split; [exact ex_tree_cong|]. split; [vm_compute; reflexivity|].
+  eexists. split; vm_compute; reflexivity.
+Qed.
